@@ -43,8 +43,9 @@ def run(ctx):
     rtout = ctx.path("rt.ndjson")
     ctx.vhrun(["c08-rt", rnd, ctx.path("rtmod"), rtout, "160" if thorough else "40"], timeout=3000)
     vlib.run(["rm", "-rf", ctx.path("rtmod")], check=False)
-    sigrt = lambda c: "rt:%s:%s" % ("cancellable" if c.get("cancellable") else "plain", sig(c))
-    vlib.validate_cases(ctx, "C08RtTrace", "C08RtTrace.cfg", rtout, label="runtime", sig=sigrt, rerun=None, input_keys=["alts", "cancellable", "tmtext"],
+    sigrt = lambda c: "rt:%s:%s%s" % ("cancellable" if c.get("cancellable") else "plain", "many=%d" % c["many"] if c.get("many") else sig(c),
+                                      " leads " + ",".join("".join(map(str, l)) for l in c["leads"]) if c.get("nlead", 1) > 1 else "")
+    vlib.validate_cases(ctx, "C08RtTrace", "C08RtTrace.cfg", rtout, label="runtime", sig=sigrt, rerun=None, input_keys=["alts", "leads", "nlead", "many", "cancellable", "tmtext"],
                         observed_keys=["genErr", "chosen", "errs"], nontrivial=lambda c: c["genErr"] == "" and len(set(c["chosen"])) >= 2, timeout=3000)
     ctx.cov["exhaustive"] = True
     ctx.cov["rule"] = ("TLC enumerates every set of 2 alternatives (3003) and every%s set of 3 (76076) over 3 predicate inputs, each alternative a written sequence of 1-3 signed "
